@@ -161,6 +161,10 @@ ListIndex(els, n) ==        \* language semantics of xs[i]: truncate toward zero
 NumsOf(els) == [i \in 1..Len(els) |-> els[i].v]
 FoldNum(Op(_, _), ns) == FoldLeft(LAMBDA acc, x : IF IsOOD(acc) THEN OOD ELSE Op(acc, x), ns[1], Tail(ns))
 
+\* instants: whole seconds v, optionally nanoseconds ns within the second
+TNs(t) == IF "ns" \in DOMAIN t THEN t.ns ELSE 0
+QuarterNs(t) == TNs(t) % 250000000 = 0
+TCmp(x, y) == IF x.v # y.v THEN (IF x.v < y.v THEN -1 ELSE 1) ELSE IF TNs(x) < TNs(y) THEN -1 ELSE IF TNs(x) > TNs(y) THEN 1 ELSE 0
 (* ---------------- meaning of the strict built-ins ---------------- *)
 ApplyBuiltin(id, a) ==
   CASE id = "ABS_NUM" -> PNum(NumAbs(a[1].v))
@@ -172,7 +176,10 @@ ApplyBuiltin(id, a) ==
     [] id = "ROUND_NUM" -> PNum(NumRound(a[1].v))
     [] id = "SUB_NUM" -> PNum(NumNeg(a[1].v))
     [] id = "SUB_NUM_NUM" -> PNum(NumSub(a[1].v, a[2].v))
-    [] id = "SUB_TIME_TIME" -> PNum(NInt(a[1].v - a[2].v))
+    \* time.Sub(...).Seconds(): whole seconds plus quarters of a second are exact
+    [] id = "SUB_TIME_TIME" -> IF TNs(a[1]) = 0 /\ TNs(a[2]) = 0 THEN PNum(NInt(a[1].v - a[2].v))
+                               ELSE IF QuarterNs(a[1]) /\ QuarterNs(a[2]) /\ AbsI(a[1].v - a[2].v) < 100000000
+                               THEN PNum(Fin(4 * (a[1].v - a[2].v) + (TNs(a[1]) - TNs(a[2])) \div 250000000, 2, 0)) ELSE POod
     [] id = "MUL_NUM_NUM" -> PNum(NumMul(a[1].v, a[2].v))
     [] id = "DIV_NUM_NUM" -> PNum(NumDiv(a[1].v, a[2].v))
     [] id = "MOD_NUM_NUM" -> LET r == NumMod(a[1].v, a[2].v) IN IF r.k = "mod0" THEN PFail("mod0") ELSE PNum(r)
@@ -187,12 +194,14 @@ ApplyBuiltin(id, a) ==
     [] id = "LE_NUM_NUM" -> PB3(NumLE(a[1].v, a[2].v))
     [] id = "GT_NUM_NUM" -> PB3(NumGT(a[1].v, a[2].v))
     [] id = "GE_NUM_NUM" -> PB3(NumGE(a[1].v, a[2].v))
-    [] id \in {"EQ_BOOL_BOOL", "EQ_STR_STR", "EQ_TIME_TIME"} -> PV(VBool(a[1].v = a[2].v))
-    [] id \in {"NE_BOOL_BOOL", "NE_STR_STR", "NE_TIME_TIME"} -> PV(VBool(a[1].v # a[2].v))
-    [] id = "LT_TIME_TIME" -> PV(VBool(a[1].v < a[2].v))
-    [] id = "LE_TIME_TIME" -> PV(VBool(a[1].v <= a[2].v))
-    [] id = "GT_TIME_TIME" -> PV(VBool(a[1].v > a[2].v))
-    [] id = "GE_TIME_TIME" -> PV(VBool(a[1].v >= a[2].v))
+    [] id \in {"EQ_BOOL_BOOL", "EQ_STR_STR"} -> PV(VBool(a[1].v = a[2].v))
+    [] id \in {"NE_BOOL_BOOL", "NE_STR_STR"} -> PV(VBool(a[1].v # a[2].v))
+    [] id = "EQ_TIME_TIME" -> PV(VBool(TCmp(a[1], a[2]) = 0))
+    [] id = "NE_TIME_TIME" -> PV(VBool(TCmp(a[1], a[2]) # 0))
+    [] id = "LT_TIME_TIME" -> PV(VBool(TCmp(a[1], a[2]) < 0))
+    [] id = "LE_TIME_TIME" -> PV(VBool(TCmp(a[1], a[2]) <= 0))
+    [] id = "GT_TIME_TIME" -> PV(VBool(TCmp(a[1], a[2]) > 0))
+    [] id = "GE_TIME_TIME" -> PV(VBool(TCmp(a[1], a[2]) >= 0))
     [] id \in {"EQ_LIST_LIST", "EQ_MAP_MAP"} -> PB3(ValEq(a[1], a[2]))
     [] id \in {"NE_LIST_LIST", "NE_MAP_MAP"} -> PB3(Not3(ValEq(a[1], a[2])))
     [] id = "LOGIC_NOT_BOOL" -> PV(VBool(~a[1].v))
